@@ -2040,7 +2040,14 @@ func (s *SweepingProvider) provideRegions(regions []keyspace.Region, addrInfo pe
 				keys = append(keys, h)
 			}
 		}
-		keysAllocations := keyspace.AllocateToKClosest(r.Keys, r.Peers, s.replicationFactor)
+		// r.Peers is the subtrie found under r.Prefix, whereas r.Keys is rooted at
+		// the top of the keyspace. AllocateToKClosest walks both tries from their
+		// roots, so allocate against a peers trie that is rooted at the top as
+		// well: otherwise the bits of keys and peers are compared at different
+		// depths and keys end up on peers that are not their closest ones.
+		regionPeers := trie.New[bit256.Key, peer.ID]()
+		regionPeers.AddMany(keyspace.AllEntries(r.Peers, s.order)...)
+		keysAllocations := keyspace.AllocateToKClosest(r.Keys, regionPeers, s.replicationFactor)
 		// Prune keys and peers from region to free memory while records are sent
 		// over the network.
 		keyspace.PruneSubtrie(r.Keys, bitstr.Key(""))
